@@ -367,6 +367,7 @@ func (c *Case) crashPoint(db string, m *model, step int, leaseDur time.Duration)
 func Exec(c Case) (res core.Result) {
 	defer func() {
 		if r := recover(); r != nil {
+			core.HarnessPanic(r)
 			res = core.Result{Viol: core.Violate(c.Mode+"/panic", "range plugin panicked: %v", r)}
 		}
 		if res.Viol != nil && strings.HasSuffix(res.Viol.Signature, "/wedged") {
@@ -550,6 +551,7 @@ func (c *Case) concurrentThenRestart(h handler.Handler4, db string, m *model) *c
 			defer wg.Done()
 			defer func() {
 				if r := recover(); r != nil {
+					core.HarnessPanic(r)
 					mu.Lock()
 					if pviol == nil {
 						pviol = core.Violate("C03/panic", "range plugin panicked in concurrent phase: %v", r)
@@ -690,6 +692,7 @@ func (c *Case) runConcurrent(h handler.Handler4, m *model) *core.Violation {
 			defer wg.Done()
 			defer func() {
 				if r := recover(); r != nil {
+					core.HarnessPanic(r)
 					mu.Lock()
 					if pviol == nil {
 						pviol = core.Violate("C02/panic", "range plugin panicked in concurrent phase: %v", r)
